@@ -115,12 +115,23 @@ def views(circuit):
     return out
 
 
-def remap_case(ctx, suite, nq, nb, specs, perm, pre_passes=()):
+def _funcs(case):
+    """user-defined gates (qubit parameters also in another order than the operands) when the case uses them"""
+    if not case.get("user"):
+        return None
+    from harness.props import c20
+
+    return c20.user_functions()
+
+
+def remap_case(ctx, suite, nq, nb, specs, perm, pre_passes=(), user=False):
     from opensquirrel.mapper import HardcodedMapper
     from opensquirrel.mapper.mapping import Mapping
 
     case = {"nq": nq, "nb": nb, "specs": specs, "perm": list(perm), "pre": [list(p) for p in pre_passes]}
-    c = gen.build_circuit(nq, nb, specs)
+    if user:
+        case["user"] = True
+    c = gen.build_circuit(nq, nb, specs, _funcs(case))
     for p in pre_passes:
         try:
             implrun.apply_pass(c, list(p))
@@ -168,7 +179,7 @@ def check_remap(ctx, suite, item, mres):
         return
     # views show the mapped qubits: compare with the views of a circuit built directly on the relabelled spec
     if not case["pre"]:
-        ref = gen.build_circuit(case["nq"], case["nb"], dc_relabel(case["specs"], f))
+        ref = gen.build_circuit(case["nq"], case["nb"], dc_relabel(case["specs"], f), _funcs(case))
         v, vr = views(c), views(ref)
         for k in v:
             if v[k] != vr[k]:
@@ -224,6 +235,21 @@ def remap_suite(ctx):
         it = remap_case(ctx, "random", n, 2, specs, perm)
         if it:
             items.append(("random", it))
+    # user-defined named gates among the statements: their arguments (in the order of THEIR parameters, which need not be
+    # the order of the operands of the gate they build) must be relabelled like everything else
+    from harness.props import c20
+
+    c20.user_functions()
+    for _ in range(ctx.pick(40, 400)):
+        n = rng.randint(3, 6)
+        perm = list(range(n))
+        rng.shuffle(perm)
+        specs = gen.rand_circuit_spec(rng, n, 2, rng.randint(0, 4), max_ctrl=1)
+        for _k in range(rng.randint(1, 3)):
+            specs.insert(rng.randint(0, len(specs)), c20.rand_user_spec(rng, n))
+        it = remap_case(ctx, "user_gates", n, 2, specs, perm, user=True)
+        if it:
+            items.append(("user_gates", it))
     # circuits produced by earlier passes, and by callbacks returning one object several times
     pre_choices = [[["decompose", "zyz"]], [["merge"]], [["decompose", "cnot"], ["merge"]],
                    [["replace", "CNOT", "shared"]], [["replace", "CNOT", "cnot_to_hczh"], ["decompose", "mckay"]],
@@ -332,7 +358,8 @@ def replay(ctx, payload):
     elif "pre" not in case:         # the refusal suite is the one without earlier passes in its records
         check_refusal(ctx, case)
     else:
-        it = remap_case(ctx, suite or "replay", case["nq"], case["nb"], case["specs"], case["perm"], case.get("pre", ()))
+        it = remap_case(ctx, suite or "replay", case["nq"], case["nb"], case["specs"], case["perm"], case.get("pre", ()),
+                        user=bool(case.get("user")))
         if it is None:
             return {"fails": False, "note": "an earlier pass raised or the mapping is not constructible: nothing to check"}
         mres = model.call_many([["remap", case["nq"], case["perm"], it[2]]])
